@@ -1356,6 +1356,19 @@ def q_c05(tr):
               ch, R, want, set(), "corner %r does not emit exactly its two half-segments" % ch, either=True)
 
 
+    q_rounded_unicode(tr, "O5.T", "o5_t_rounded")
+
+
+def q_rounded_unicode(tr, obl, prefix):
+    """rounded box-drawing corners (shared by C05's O5.T and C14's O14.2)"""
+    m = tr.model
+    cg = m.t.interp.cellgrid_fns
+    P = lambda n: m.t.interp.call_fn(cg, n, [])
+    c, k, mm, o, w = P("c"), P("k"), P("m"), P("o"), P("w")
+    have = lambda xs: [x for x in xs if x in m.index]
+    H_UNI, V_UNI = have(["─", "┄"]), have(["│", "┊", "┆"])
+    UNI_C = have(["┌", "┐", "└", "┘"])
+    roles = {"tl": ("right", "bottom"), "tr": ("left", "bottom"), "bl": ("right", "top"), "br": ("left", "top")}
     # --- rounded box-drawing corners: close the outline and bulge outward -------------------
     rr = {"╭": "tl", "╮": "tr", "╰": "bl", "╯": "br"}
     URC = have(list(rr))
@@ -1387,8 +1400,8 @@ def q_c05(tr):
                 elif f[0] != "line":
                     extra.append(cond)
         viol = f_any([tables.f_not(reach(junction[hs])), tables.f_not(reach(junction[vs]))] + inward + extra)
-        name = "o5_t_rounded_%x_%s" % (ord(ch), rr[ch])
-        tr.decide(name, "O5.T",
+        name = prefix + "_%x_%s" % (ord(ch), rr[ch])
+        tr.decide(name, obl,
                   "rounded box-drawing corner %r in role %s: %s neighbour in %s, %s neighbour in %s, the rest blank or labels: "
                   "the cell emits a line or arc ending at the junction with the horizontal edge and one ending at the junction "
                   "with the vertical edge (closed outline), every arc has its SVG centre on the inner side of the corner "
@@ -1399,7 +1412,7 @@ def q_c05(tr):
         res, _ = tr.solver.check(R, want_model=False)
         tr.nq += 1
         if res != "sat":
-            tr.add(name + "_witness", "O5.T", "vacuity witness", "inconclusive", reason="role unreachable")
+            tr.add(name + "_witness", obl, "vacuity witness", "inconclusive", reason="role unreachable")
 
 
 QUERIES["C05"] = q_c05
@@ -1811,3 +1824,14 @@ def q_c13(tr):
 
 QUERIES["C13"] = q_c13
 PROPS.add("C13")
+
+
+_q_c14_prev2 = q_c14
+
+
+def q_c14_with_unicode(tr):
+    _q_c14_prev2(tr)
+    q_rounded_unicode(tr, "O14.2", "o14_2_rounded")
+
+
+QUERIES["C14"] = q_c14_with_unicode
